@@ -16,7 +16,7 @@ package json
 
 // C02 (integers): the value handed to strconv is the mathematical value of the
 // argument, in base 10; strconv's decimal text is trusted to denote it.
-//@ track IP.String, IPNet.String, HardwareAddr.String, appendStringComplex, appendBytesComplex, utf8.DecodeRuneInString, utf8.DecodeRune, strconv.AppendInt, strconv.AppendUint, strconv.AppendBool, strconv.AppendFloat, math.IsNaN, math.IsInf, Time.Unix, Time.UnixNano, Time.AppendFormat, Encoder.AppendFloat64
+//@ track appendUnixTimes, appendUnixNanoTimes, IP.String, IPNet.String, HardwareAddr.String, appendStringComplex, appendBytesComplex, utf8.DecodeRuneInString, utf8.DecodeRune, strconv.AppendInt, strconv.AppendUint, strconv.AppendBool, strconv.AppendFloat, math.IsNaN, math.IsInf, Time.Unix, Time.UnixNano, Time.AppendFormat, Encoder.AppendFloat64
 
 //@ var JSONMarshalFunc(v) res, err
 //@   modifies nothing
@@ -641,6 +641,10 @@ package json
 //@   flag tags !binary_log
 //@   requires valueok(dst) && cleanlayout(format)
 //@   ensures emitsvalue(res, dst)
+//@   ensures [C02] format == timeFormatUnix ==> ncalls(appendUnixTimes) == old(ncalls(appendUnixTimes)) + 1 && same(callarg(appendUnixTimes, old(ncalls(appendUnixTimes)), 1), vals) && ncalls(appendUnixNanoTimes) == old(ncalls(appendUnixNanoTimes))
+//@   ensures [C02] format == timeFormatUnixMs ==> ncalls(appendUnixNanoTimes) == old(ncalls(appendUnixNanoTimes)) + 1 && same(callarg(appendUnixNanoTimes, old(ncalls(appendUnixNanoTimes)), 1), vals) && callarg(appendUnixNanoTimes, old(ncalls(appendUnixNanoTimes)), 2) == 1000000 && ncalls(appendUnixTimes) == old(ncalls(appendUnixTimes))
+//@   ensures [C02] format == timeFormatUnixMicro ==> ncalls(appendUnixNanoTimes) == old(ncalls(appendUnixNanoTimes)) + 1 && same(callarg(appendUnixNanoTimes, old(ncalls(appendUnixNanoTimes)), 1), vals) && callarg(appendUnixNanoTimes, old(ncalls(appendUnixNanoTimes)), 2) == 1000 && ncalls(appendUnixTimes) == old(ncalls(appendUnixTimes))
+//@   ensures [C02] format == timeFormatUnixNano ==> ncalls(appendUnixNanoTimes) == old(ncalls(appendUnixNanoTimes)) + 1 && same(callarg(appendUnixNanoTimes, old(ncalls(appendUnixNanoTimes)), 1), vals) && callarg(appendUnixNanoTimes, old(ncalls(appendUnixNanoTimes)), 2) == 1 && ncalls(appendUnixTimes) == old(ncalls(appendUnixTimes))
 //@   loop 1:
 //@     invariant 0 <= rangeindex + 1 && rangeindex + 1 <= len(vals) - 1
 //@     invariant lex(dst) == 0 && mode(dst) == ARR_NEXT && stk(dst) == pushstk(mode(dst0), stk(dst0)) && prefix(dst, dst0) && len(dst) > len(dst0)
@@ -652,10 +656,16 @@ package json
 //@   flag tags !binary_log
 //@   requires valueok(dst)
 //@   ensures emitsvalue(res, dst)
+//@   ensures [C02] ncalls(Time.Unix) == old(ncalls(Time.Unix)) + len(vals) && ncalls(strconv.AppendInt) == old(ncalls(strconv.AppendInt)) + len(vals)
+//@   ensures [C02] forall j in old(ncalls(Time.Unix))..ncalls(Time.Unix): callarg(Time.Unix, j, 0) == vals[j - old(ncalls(Time.Unix))]
+//@   ensures [C02] forall j in old(ncalls(strconv.AppendInt))..ncalls(strconv.AppendInt): callarg(strconv.AppendInt, j, 1) == callres(Time.Unix, old(ncalls(Time.Unix)) + (j - old(ncalls(strconv.AppendInt))), 0) && callarg(strconv.AppendInt, j, 2) == 10
 //@   loop 1:
 //@     invariant 0 <= rangeindex + 1 && rangeindex + 1 <= len(vals) - 1
 //@     invariant lex(dst) == 0 && mode(dst) == ARR_NEXT && stk(dst) == pushstk(mode(dst0), stk(dst0)) && prefix(dst, dst0) && len(dst) > len(dst0)
 //@     decreases len(vals) - 1 - (rangeindex + 1)
+//@     invariant [C02] ncalls(Time.Unix) == old(ncalls(Time.Unix)) + rangeindex + 2 && ncalls(strconv.AppendInt) == old(ncalls(strconv.AppendInt)) + rangeindex + 2
+//@     invariant [C02] forall j in old(ncalls(Time.Unix))..ncalls(Time.Unix): callarg(Time.Unix, j, 0) == vals[j - old(ncalls(Time.Unix))]
+//@     invariant [C02] forall j in old(ncalls(strconv.AppendInt))..ncalls(strconv.AppendInt): callarg(strconv.AppendInt, j, 1) == callres(Time.Unix, old(ncalls(Time.Unix)) + (j - old(ncalls(strconv.AppendInt))), 0) && callarg(strconv.AppendInt, j, 2) == 10
 
 //@ func appendUnixNanoTimes(dst, vals, div) res
 //@   props C01
@@ -663,10 +673,16 @@ package json
 //@   flag tags !binary_log
 //@   requires valueok(dst) && div != 0
 //@   ensures emitsvalue(res, dst)
+//@   ensures [C02] ncalls(Time.UnixNano) == old(ncalls(Time.UnixNano)) + len(vals) && ncalls(strconv.AppendInt) == old(ncalls(strconv.AppendInt)) + len(vals)
+//@   ensures [C02] forall j in old(ncalls(Time.UnixNano))..ncalls(Time.UnixNano): callarg(Time.UnixNano, j, 0) == vals[j - old(ncalls(Time.UnixNano))]
+//@   ensures [C02] forall j in old(ncalls(strconv.AppendInt))..ncalls(strconv.AppendInt): callarg(strconv.AppendInt, j, 1) == callres(Time.UnixNano, old(ncalls(Time.UnixNano)) + (j - old(ncalls(strconv.AppendInt))), 0) / div && callarg(strconv.AppendInt, j, 2) == 10
 //@   loop 1:
 //@     invariant 0 <= rangeindex + 1 && rangeindex + 1 <= len(vals) - 1
 //@     invariant lex(dst) == 0 && mode(dst) == ARR_NEXT && stk(dst) == pushstk(mode(dst0), stk(dst0)) && prefix(dst, dst0) && len(dst) > len(dst0)
 //@     decreases len(vals) - 1 - (rangeindex + 1)
+//@     invariant [C02] ncalls(Time.UnixNano) == old(ncalls(Time.UnixNano)) + rangeindex + 2 && ncalls(strconv.AppendInt) == old(ncalls(strconv.AppendInt)) + rangeindex + 2
+//@     invariant [C02] forall j in old(ncalls(Time.UnixNano))..ncalls(Time.UnixNano): callarg(Time.UnixNano, j, 0) == vals[j - old(ncalls(Time.UnixNano))]
+//@     invariant [C02] forall j in old(ncalls(strconv.AppendInt))..ncalls(strconv.AppendInt): callarg(strconv.AppendInt, j, 1) == callres(Time.UnixNano, old(ncalls(Time.UnixNano)) + (j - old(ncalls(strconv.AppendInt))), 0) / div && callarg(strconv.AppendInt, j, 2) == 10
 
 //@ func (Encoder).AppendDuration(e, dst, d, unit, useInt, precision) res
 //@   props C01
